@@ -182,3 +182,164 @@ func TestVerifReplayC01(t *testing.T) {
 	}
 }
 `
+
+// replayC04 attaches a concrete panicking input to a failed C04 obligation by
+// running the public entry points of the obligation's package over a corpus
+// of hostile strings (directed search; never changes the verdict).
+func replayC04(c *checkCtx, r *OblResult) *Replay {
+	rp := genericReplay("C04", r)
+	pkg := "semver"
+	if i := strings.Index(r.Func, "."); i > 0 {
+		pkg = r.Func[:i]
+	}
+	var dir, src, test string
+	switch pkg {
+	case "semver":
+		dir, src, test = "util/semver", c04SemverTest, "TestVerifReplayC04"
+	case "pypi":
+		if strings.Contains(r.Func, "marker") || strings.Contains(r.Func, "Marker") {
+			return rp
+		}
+		dir, src, test = "util/pypi", c04PypiTest, "TestVerifReplayC04"
+	default:
+		return rp
+	}
+	seed := fmt.Sprint(c.seed)
+	src = strings.ReplaceAll(src, "@SEED@", seed)
+	out, ok := runOverlayTest(repoRoot()+"/"+dir, test, src, 180)
+	testFile := filepath.Join(verifRoot, "replays", "C04_"+sanitize(r.Name)+"_test.go")
+	os.MkdirAll(filepath.Dir(testFile), 0o755)
+	os.WriteFile(testFile, []byte(src), 0o644)
+	rp.TestFile, rp.TestPkgDir, rp.TestName = testFile, dir, test
+	rp.Command = "govc replay <this file>"
+	if m := reFound.FindStringSubmatch(out); m != nil && !ok {
+		rp.Found = true
+		rp.Input = m[1]
+		rp.Observed = lastLines(out, 15)
+		rp.Explanation = "The obligation is no longer discharged; a directed search over the public entry points found an input that panics or hangs."
+	} else if !ok && strings.Contains(out, "panic: test timed out") {
+		rp.Found = true
+		rp.Input = "an input of the corpus makes an entry point hang (test timed out)"
+		rp.Observed = lastLines(out, 15)
+	} else {
+		rp.Notes = append(rp.Notes, "directed search over the entry points found no panicking input: "+lastLines(out, 3))
+	}
+	return rp
+}
+
+const c04Corpus = `
+func verifCorpus(seed int64) []string {
+	base := []string{"", " ", "1", "1.0", "1.0.0", "1.2.3-alpha.1+build", "v1.2.3", "1.0.0*a", "1.0.0*", "1.0.0**", "1.0.0*a*", "1.*", "*", "x", "1.x", "^1.2", "~1.2", "~>1.2", ">=1.0 <2.0", ">=1.0,<2.0",
+		"1.0 - 2.0", "1.0 || 2.0", "||", "|", "-", "- 1", "1 -", "(,)", "[1.0,2.0)", "[1.0,2.0),[3.0,4.0]", "(,1.0]", "[1.0", "1.0]", "[,]", "{}", "{1.0.0}", "{[1.0.0:2.0.0]}", "{(1.0.0:2.0.0),[3.0.0:∞.∞.∞]}", "{[", "{]}",
+		"∞", "∞.∞.∞", "1.∞", "==1.0", "!=1.0", "~=1.0", "==1.*", "!=1.*", "1!1.0", "1!", "!", "1.0a1", "1.0.dev1", "1.0.post1", "1.0+local.1", "1.0+", "1.0-", "1.0.", ".1", "..", "1..0", "1.0-SNAPSHOT", "1.0-alpha-1",
+		"1-", "1.a", "1.0.a.01.5", "1.0-rc1", "99999999999999999999", "1.99999999999999999999", "1.0.0-99999999999999999999", "01.0", "1.01", "0", "00", "-1", "+1", "1+", "1-+", "1.0.0-+", "1.0.0+-", "\x00", "\xff", "1.\xff", "1.0\x80", "é", "1.é", "１.０"}
+	alpha := []byte("0123456789.*-+~^<>=!|,()[]{}: vxXaAzZ_\x80\xff\xe2\x88\x9e")
+	state := uint64(seed)*6364136223846793005 + 1442695040888963407
+	next := func() uint64 { state ^= state << 13; state ^= state >> 7; state ^= state << 17; return state }
+	out := append([]string{}, base...)
+	for n := 0; n < 6000; n++ {
+		l := int(next() % 10)
+		b := make([]byte, l)
+		for i := range b {
+			b[i] = alpha[next()%uint64(len(alpha))]
+		}
+		out = append(out, string(b))
+	}
+	for _, s := range base {
+		for k := 0; k < 3 && len(s) > 0; k++ {
+			i := int(next() % uint64(len(s)))
+			out = append(out, s[:i]+string(alpha[next()%uint64(len(alpha))])+s[i:], s[:i]+s[i+1:])
+		}
+	}
+	return out
+}
+`
+
+const c04SemverTest = `package semver
+
+import (
+	"fmt"
+	"testing"
+)
+` + c04Corpus + `
+func TestVerifReplayC04(t *testing.T) {
+	corpus := verifCorpus(@SEED@)
+	systems := []System{DefaultSystem, Cargo, Go, Maven, NPM, NuGet, PyPI, RubyGems, Composer}
+	try := func(what string, f func()) {
+		defer func() {
+			if r := recover(); r != nil {
+				t.Fatalf("COUNTEREXAMPLE: %s panics: %v", what, r)
+			}
+		}()
+		f()
+	}
+	for _, sys := range systems {
+		var parsed []*Version
+		for _, s := range corpus {
+			s, sys := s, sys
+			try(fmt.Sprintf("%v.Parse(%q)", sys, s), func() {
+				if v, err := sys.Parse(s); err == nil {
+					_ = v.String()
+					_ = v.Canon(true)
+					_ = v.IsPrerelease()
+					if len(parsed) < 200 {
+						parsed = append(parsed, v)
+					}
+				}
+			})
+			try(fmt.Sprintf("%v.ParseConstraint(%q)", sys, s), func() {
+				if c, err := sys.ParseConstraint(s); err == nil {
+					_ = c.String()
+					_ = c.Set().String()
+					for _, v := range parsed[:min(len(parsed), 20)] {
+						_ = c.MatchVersion(v)
+						_ = c.MatchVersionPrerelease(v)
+					}
+					_ = c.Match("1.0.0")
+				}
+			})
+			try(fmt.Sprintf("%v.ParseSetConstraint(%q)", sys, s), func() {
+				if c, err := sys.ParseSetConstraint(s); err == nil {
+					_ = c.String()
+				}
+			})
+			try(fmt.Sprintf("%v.Compare(%q, 1.0.0)", sys, s), func() { _ = sys.Compare(s, "1.0.0"); _ = sys.Compare("1.0.0", s) })
+			try(fmt.Sprintf("%v.Difference(%q, 1.0.0)", sys, s), func() { _, _, _ = sys.Difference(s, "1.0.0") })
+		}
+		for i, a := range parsed {
+			for _, b := range parsed[:min(len(parsed), 40)] {
+				a, b := a, b
+				try(fmt.Sprintf("%v compare(%q,%q)", sys, a.String(), b.String()), func() { _ = a.Compare(b); _, _ = a.Difference(b) })
+			}
+			_ = i
+		}
+	}
+}
+`
+
+const c04PypiTest = `package pypi
+
+import (
+	"fmt"
+	"testing"
+)
+` + c04Corpus + `
+func TestVerifReplayC04(t *testing.T) {
+	corpus := verifCorpus(@SEED@)
+	extra := []string{"a", "a[b]", "a[b,c]>=1.0", "a (>=1.0)", "a>=1.0; python_version<'3'", "a;", "a[", "a]", "a[]", "a (", "a )", "A_b.c", "-", "a--b", "a;;", "a ; extra == 'x'", "a@http://x", "a @ file:///x ; os_name=='nt'"}
+	try := func(what string, f func()) {
+		defer func() {
+			if r := recover(); r != nil {
+				t.Fatalf("COUNTEREXAMPLE: %s panics: %v", what, r)
+			}
+		}()
+		f()
+	}
+	for _, s := range append(corpus, extra...) {
+		s := s
+		try(fmt.Sprintf("ParseDependency(%q)", s), func() { _, _ = ParseDependency(s) })
+		try(fmt.Sprintf("CanonPackageName(%q)", s), func() { _ = CanonPackageName(s) })
+		try(fmt.Sprintf("CanonVersion(%q)", s), func() { _ = CanonVersion(s) })
+	}
+}
+`
